@@ -9,8 +9,7 @@
             <rename the body with {quantified_parameter: fresh}>;  quantified_parameter = fresh
         <rename the body with free>
      fresh_variable_name(v, text, renaming): the first of v_0, v_1, ... that is neither a substring of text nor a key
-        nor a value of renaming.  A candidate begins with '?', which the printed text has only at the beginning of a
-        variable name: "substring of the text" = "prefix of a name printed in it".
+        nor a value of renaming.  "substring of the text" = "substring of one of the tokens printed in it" (see ptok_pre below).
    The second renaming walks the result of the first one, so the functions are defined by recursion on a fuel (the
    nesting depth bounds it); running out of fuel is Err EFuel.  Definitions only. *)
 From Coq Require Import List String Bool Arith DecimalString.
@@ -21,49 +20,59 @@ Open Scope list_scope.
 
 Definition nat_to_string (n : nat) : string := NilEmpty.string_of_uint (Nat.to_uint n).
 
-(* ---------- the names printed for a condition / an effect (free, bound, constants) ---------- *)
-Fixpoint pnames_tree (t : mtree) : list string :=
+(* ---------- the tokens printed for a condition / an effect that are not fixed keywords, operators or numerals:
+   variables, constants, predicate / function names, type names.  The printed text separates tokens by blanks, tabs,
+   newlines and parentheses and a candidate (a variable name followed by _<digits>) contains none of these, so
+   "candidate in text" (Python's substring test) holds iff the candidate is a substring of one of the tokens; keywords,
+   operators and numerals contain no '?' and cannot hold it.  A quantified condition WITHOUT operands and pairs prints
+   the empty string (UniversalPrecondition.print): neither its variable nor its type is in the text. ---------- *)
+Fixpoint ptok_tree (t : mtree) : list string :=
   match t with
   | TNum _ => []
-  | TFn _ args => args
-  | TNode _ l r => pnames_tree l ++ pnames_tree r
+  | TFn f args => f :: args
+  | TNode _ l r => ptok_tree l ++ ptok_tree r
   end.
-
-Fixpoint pnames_pre (p : mpre) : list string :=
-  match p with
-  | MPre _ os eqs neqs =>
-      (fix go (l : list mcond) : list string := match l with [] => [] | c :: r => pnames_cond c ++ go r end) os ++
-      flat_map (fun ab => [fst ab; snd ab]) eqs ++ flat_map (fun ab => [fst ab; snd ab]) neqs
-  end
-with pnames_cond (c : mcond) : list string :=
-  match c with
-  | MLit _ _ args => args
-  | MNum t => pnames_tree t
-  | MNested q => pnames_pre q
-  | MUniv v _ body => v :: pnames_pre body
-  end.
-
-Definition pnames_condeff (ce : mcondeff) : list string :=
-  pnames_pre (ce_ante ce) ++ flat_map (fun l => l_args l) (ce_disc ce) ++ flat_map pnames_tree (ce_num ce).
 
 (* UniversalPrecondition.print returns "" for a quantifier without operands and pairs *)
 Definition empty_pre (p : mpre) : bool :=
   match p with MPre _ [] [] [] => true | _ => false end.
 
-(* ---------- fresh_variable_name ---------- *)
-Definition blocked (names : list string) (m : renaming) (c : string) : bool :=
-  existsb (fun n => String.prefix c n) names || str_in c (dkeys m) || str_in c (dvalues m).
+Fixpoint ptok_pre (p : mpre) : list string :=
+  match p with
+  | MPre _ os eqs neqs =>
+      (fix go (l : list mcond) : list string := match l with [] => [] | c :: r => ptok_cond c ++ go r end) os ++
+      flat_map (fun ab => [fst ab; snd ab]) eqs ++ flat_map (fun ab => [fst ab; snd ab]) neqs
+  end
+with ptok_cond (c : mcond) : list string :=
+  match c with
+  | MLit _ p args => p :: args
+  | MNum t => ptok_tree t
+  | MNested q => ptok_pre q
+  | MUniv v ty body => if empty_pre body then [] else v :: ty :: ptok_pre body
+  end.
 
-Fixpoint fresh_from (fuel : nat) (v : string) (names : list string) (m : renaming) (i : nat) : result string :=
+Definition ptok_condeff (ce : mcondeff) : list string :=
+  ptok_pre (ce_ante ce) ++ flat_map (fun l => l_name l :: l_args l) (ce_disc ce) ++ flat_map ptok_tree (ce_num ce).
+
+(* ---------- fresh_variable_name ---------- *)
+(* Python's  c in n  for strings: c is a substring of n *)
+Fixpoint infix_of (c n : string) : bool :=
+  String.prefix c n || match n with EmptyString => false | String _ r => infix_of c r end.
+
+Definition blocked (toks : list string) (m : renaming) (c : string) : bool :=
+  existsb (infix_of c) toks || str_in c (dkeys m) || str_in c (dvalues m).
+
+Fixpoint fresh_from (fuel : nat) (v : string) (toks : list string) (m : renaming) (i : nat) : result string :=
   match fuel with
   | 0 => Err EFuel
   | S fu =>
       let c := (v ++ "_" ++ nat_to_string i)%string in
-      if blocked names m c then fresh_from fu v names m (S i) else Ok c
+      if blocked toks m c then fresh_from fu v toks m (S i) else Ok c
   end.
-(* a name of length L blocks at most L candidates, a key or a value one *)
-Definition fresh_name (v : string) (names : list string) (m : renaming) : result string :=
-  fresh_from (1 + list_sum (map String.length names) + 2 * List.length m) v names m 0.
+(* a token of length L has at most L*(L+1)/2 non-empty substrings, a key or a value blocks one candidate; the candidates are
+   pairwise distinct, so within that many steps (+1) one of them is free *)
+Definition fresh_name (v : string) (toks : list string) (m : renaming) : result string :=
+  fresh_from (1 + list_sum (map (fun n => String.length n * S (String.length n)) toks) + 2 * List.length m) v toks m 0.
 
 (* ---------- the renaming ---------- *)
 Fixpoint rename_pre_a (fuel : nat) (m : renaming) (p : mpre) : result mpre :=
@@ -87,7 +96,7 @@ with rename_cond_a (fuel : nat) (m : renaming) (c : mcond) : result mcond :=
       | MUniv v ty body =>
           let free := drop m v in
           if str_in v (dvalues free) then
-            do fresh <- fresh_name v (if empty_pre body then [] else v :: pnames_pre body) free;
+            do fresh <- fresh_name v (ptok_cond (MUniv v ty body)) free;
             do b' <- rename_pre_a fu free (rename_pre [(v, fresh)] body);
             Ok (MUniv fresh ty b')
           else
@@ -103,7 +112,7 @@ Definition rename_univeff_a (fuel : nat) (m : renaming) (ue : muniveff) : result
   let v := ue_var ue in
   let free := drop m v in
   if str_in v (dvalues free) then
-    do fresh <- fresh_name v (v :: pnames_condeff (ue_ce ue)) free;
+    do fresh <- fresh_name v (v :: ue_ty ue :: ptok_condeff (ue_ce ue)) free;
     do ce <- rename_condeff_a fuel free (rename_condeff [(v, fresh)] (ue_ce ue));
     Ok {| ue_var := fresh; ue_ty := ue_ty ue; ue_ce := ce |}
   else
